@@ -10,15 +10,32 @@ pub fn now() -> i64 {
 
 //returns the date without time
 pub fn date(date_time: i64) -> i64 {
-    let date = DateTime::from_timestamp_millis(date_time).unwrap();
-    let ds: NaiveDateTime = date.date_naive().and_hms_opt(0, 0, 0).unwrap();
+    //a date that cannot be represented (it can be sent by a remote peer) is returned unchanged
+    let date = match DateTime::from_timestamp_millis(date_time) {
+        Some(date) => date,
+        None => return date_time,
+    };
+    let ds: NaiveDateTime = match date.date_naive().and_hms_opt(0, 0, 0) {
+        Some(ds) => ds,
+        None => return date_time,
+    };
     ds.and_utc().timestamp_millis()
 }
 
 //returns the next day without time
 pub fn date_next_day(date_time: i64) -> i64 {
-    let date = DateTime::from_timestamp_millis(date_time).unwrap();
-    let date = date + Duration::days(1);
-    let ds: NaiveDateTime = date.date_naive().and_hms_opt(0, 0, 0).unwrap();
+    //a date that cannot be represented (it can be sent by a remote peer) is returned unchanged
+    let date = match DateTime::from_timestamp_millis(date_time) {
+        Some(date) => date,
+        None => return date_time,
+    };
+    let date = match date.checked_add_signed(Duration::days(1)) {
+        Some(date) => date,
+        None => return date_time,
+    };
+    let ds: NaiveDateTime = match date.date_naive().and_hms_opt(0, 0, 0) {
+        Some(ds) => ds,
+        None => return date_time,
+    };
     ds.and_utc().timestamp_millis()
 }
